@@ -216,6 +216,10 @@ def g1_discharged(st, kind, what, fn_summ):
         return None
     if kind == "index":
         base, idx = st.args
+        import norm as _norm
+        whole = _norm.Normalizer()(("index", base, idx))
+        if whole[0] == "index":
+            base, idx = whole[1], whole[2]
         if what.startswith("map:"):
             if known_some(pc, ("call", GET, (base, idx))):
                 return "contains_key(map, key) dominates map[key]"
@@ -230,12 +234,18 @@ def g1_discharged(st, kind, what, fn_summ):
                         return "i > 0 dominates tokens[i - 1]"
                     return None
                 return "position(..) = Some(i) dominates tokens[i] / tokens[..i] / tokens[i+1..]"
-        if idx == ("lit", 0):
-            ln = lambda t: t[0] == "call" and last(t[1]) == "len" and t[2] == (base,)       # noqa: E731
-            if pc_true(pc, lambda t: t[0] == "bin" and t[1] == "==" and ((ln(t[2]) and t[3] == ("lit", 1)) or (ln(t[3]) and t[2] == ("lit", 1)))):
-                return "len == 1 dominates tokens[0]"
-            if any((not pol) and t[0] == "call" and last(t[1]) == "is_empty" and t[2] == (base,) for t, pol in q.conds(pc)):
-                return "!is_empty dominates tokens[0]"
+        if idx[0] == "lit" and isinstance(idx[1], terms.Int):
+            n = int(idx[1])
+            ln = lambda t: t[0] == "call" and last(t[1]) in ("len", "#len") and t[2] == (base,)       # noqa: E731
+            for t, pol in q.conds(pc):
+                if t[0] == "bin" and pol:
+                    for x, y, op in ((t[2], t[3], t[1]), (t[3], t[2], {"==": "==", ">": "<", "<": ">", ">=": "<=", "<=": ">=", "!=": "!="}.get(t[1]))):
+                        if ln(x) and y[0] == "lit" and isinstance(y[1], terms.Int):
+                            m = int(y[1])
+                            if (op == "==" and m > n) or (op == ">=" and m > n) or (op == ">" and m >= n):
+                                return f"len {op} {m} dominates [{n}]"
+                if n == 0 and t[0] == "call" and last(t[1]) in ("is_empty", "#is_empty") and t[2] == (base,) and not pol:
+                    return "!is_empty dominates [0]"
         return None
     if kind == "arith":
         a, b = st.args
@@ -243,21 +253,110 @@ def g1_discharged(st, kind, what, fn_summ):
             return "i > 0 dominates i - 1"
         return None
     if kind == "panic":
-        # `match &tokens[i] { P(..) => .., _ => unreachable!() }` with i the first position satisfying P
-        for c in pc:
-            if c[0] == "match" and c[3] and c[2][0] == "wild" and c[1][0] == "index":
-                pos = position_index(c[1][2])
-                prior = c[5] if len(c) > 5 else ()
-                if pos is not None and pos[1] == "i" and slice_of(pos[0]) == c[1][1] and prior:
-                    cls = c05.token_class(pos[0][3]) if pos[0][0] == "hof" else None
+        return parser_unreachable(pc)
+    return None
+
+
+_PROG = None
+
+
+def closure(pc):
+    """Atomic facts of a path condition, closed under unit propagation: !(A && B), A |- !B;  (A || B), !A |- B."""
+    known = list(q.conds(pc))
+    for c in pc:
+        if c[0] == "match":
+            known.append((("matches", c[1], c[2]), bool(c[3])))
+    changed = True
+    n = 0
+    while changed and n < 10:
+        changed = False
+        n += 1
+        for t, pol in list(known):
+            if t[0] == "bin" and ((t[1] == "&&" and not pol) or (t[1] == "||" and pol)):
+                a, b = t[2], t[3]
+                want = (t[1] == "&&")            # the value of the other operand that decides nothing
+                for x, y in ((a, b), (b, a)):
+                    neg = False
+                    xx = x
+                    while xx[0] == "not":
+                        xx, neg = xx[1], not neg
+                    if (xx, want != neg) in known:
+                        yy, p2 = y, not want
+                        while yy[0] == "not":
+                            yy, p2 = yy[1], not p2
+                        if yy[0] == "bin" and yy[1] == "&&" and p2:
+                            new = [(yy[2], True), (yy[3], True)]
+                        else:
+                            new = [(yy, p2)]
+                        for f_ in new:
+                            if f_ not in known:
+                                known.append(f_)
+                                changed = True
+    return known
+
+
+def search_facts(pc):
+    """[(slice S, position term POS, index i, class of the searched tokens, i == 0 known)] for the successful searches on the path."""
+    import parserspec as PS
+    out = []
+    known = closure(pc)
+    for t, pol in known:
+        x = q.is_some_test(t)
+        if pol and x is not None and x[0] == "hof" and x[1] in ("position",):
+            S = slice_of(x)
+            elem = next((y for y in subterms(x[3]) if y[0] == "elem"), None)
+            cls = PS.pred_class(_PROG, x[3], elem) if elem is not None and _PROG is not None else None
+            if S is not None and cls:
+                i = ("proj", x, SOME, 0)
+                out.append((S, x, i, cls, not positive_unknown(known, i)))
+    return out
+
+
+def positive_unknown(known, i):
+    """False iff the facts say i == 0 (i > 0 is known to be false)."""
+    for t, pol in known:
+        if t[0] == "bin" and ((t[1] == ">" and t[2] == i and t[3] == ("lit", 0) and not pol) or (t[1] == "==" and i in (t[2], t[3]) and ("lit", 0) in (t[2], t[3]) and pol)
+                              or (t[1] == "!=" and i in (t[2], t[3]) and ("lit", 0) in (t[2], t[3]) and not pol)):
+            return False
+    return True
+
+
+def parser_unreachable(pc):
+    """The panic is behind a test that cannot fail: tokens[i] is matched against a pattern covering the class of tokens that the
+    search for position i accepts (`match` with a catch-all arm, `let .. else`, `if let .. else`, slice patterns when i == 0)."""
+    import parserspec as PS
+    facts = search_facts(pc)
+    if not facts:
+        return None
+
+    def provable(t):
+        if t[0] == "bin" and t[1] == "&&":
+            return provable(t[2]) and provable(t[3])
+        if t[0] == "not" and t[1][0] == "call" and t[1][1] == "#is_empty":
+            return any(S == t[1][2][0] for S, _, _, _, _ in facts)
+        if t[0] == "bin" and t[1] == ">=" and t[2][0] == "call" and t[2][1] == "#len" and t[3] == ("lit", 1):
+            return any(S == t[2][2][0] for S, _, _, _, _ in facts)
+        if t[0] == "matches" and t[1][0] == "index":
+            for S, pos, i, cls, zero in facts:
+                if t[1][1] == S and (t[1][2] == i or (zero and t[1][2] == ("lit", 0))):
+                    c = PS.desc_class(_PROG, t[2])
+                    if c is not None and cls <= c:
+                        return True
+        return False
+    for t, pol in closure(pc):
+        if not pol and provable(t):
+            return "the failed test cannot fail: the token at the searched position is of the class the search accepts"
+    for c in pc:
+        if c[0] == "match" and c[3] and c[2][0] == "wild" and c[1][0] == "index" and len(c) > 5 and c[5]:
+            for S, pos, i, cls, zero in facts:
+                if c[1][1] == S and (c[1][2] == i or (zero and c[1][2] == ("lit", 0))):
                     arm_cls = set()
-                    for d in prior:
-                        x = c05.token_class(("matches", None, d)) or generic_class(d)
+                    for d in c[5]:
+                        x = PS.desc_class(_PROG, d)
                         if x:
                             arm_cls |= x
-                    if cls and (cls <= arm_cls or generic_cover(cls, prior)):
+                    if cls <= arm_cls:
                         return "the searched predicate holds at tokens[i], and its pattern is matched by an earlier arm"
-        return None
     return None
 
 
@@ -438,7 +537,12 @@ def run(prog, rep):
     rep.rule("C14-R2", "validators dominate evaluation in every string entry point")
     rep.rule("C14-R3", "the listed errors are produced as Err values")
     # the small search helpers of the parser are inlined so that `i` is visibly the first position of a predicate
-    eng = terms.Engine(prog, inline=True, hooks=E.Hooks([], inline_names=c05.INLINE_PARSER))
+    import parserspec as PS
+    eng = terms.Engine(prog, inline=True, hooks=E.Hooks([PS.PARSER], opaque_names=[f.path for f in prog.lib_fns() if PS.is_level_fn(f)] + [PS.PARSER + "parse_hctl_tokens",
+                                                                                   PS.PARSER + "parse_hctl_formula", PS.PARSER + "parse_extended_formula",
+                                                                                   PS.PARSER + "parse_and_minimize_hctl_formula", PS.PARSER + "parse_and_minimize_extended_formula"]))
+    global _PROG
+    _PROG = prog
     edges = callgraph.build(prog, terms.Engine(prog, inline=False))
     roots = [f for f in pipelines.entry_points(prog) if any("str" in t for t in f.param_tys)]
     rep.check(len(roots) == 17, "C14-R2", "entry-points/count", "", f"{len(roots)} string entry points", f"{len(roots)} string entry points found, 17 expected")
